@@ -129,6 +129,22 @@ pub async fn raw_connect(addr: SocketAddr, ca_der: &[u8], identity: Option<(Vec<
 
 /// like `raw_connect`, presenting an arbitrary certificate chain
 pub async fn raw_connect_chain(addr: SocketAddr, ca_der: &[u8], identity: Option<(Vec<Vec<u8>>, Vec<u8>)>) -> Result<Connection> {
+    raw_connect_opts(addr, ca_der, identity, None).await
+}
+
+/// a trusted raw peer that advertises a tiny per-stream receive window: whatever the server
+/// writes to one of its streams blocks on flow control unless the peer reads
+pub async fn raw_connect_tiny_window(addr: SocketAddr, certs: &Path, window: u32) -> Result<Connection> {
+    raw_connect_opts(
+        addr,
+        &read_der(certs.join("client/ca.der"))?,
+        Some((vec![read_der(certs.join("client/localhost.der"))?], read_der(certs.join("client/localhost.key.der"))?)),
+        Some(window),
+    )
+    .await
+}
+
+pub async fn raw_connect_opts(addr: SocketAddr, ca_der: &[u8], identity: Option<(Vec<Vec<u8>>, Vec<u8>)>, stream_window: Option<u32>) -> Result<Connection> {
     let mut roots = RootCertStore::empty();
     roots.add(&Certificate(ca_der.to_vec()))?;
     let builder = rustls::ClientConfig::builder().with_safe_defaults().with_root_certificates(roots);
@@ -140,6 +156,9 @@ pub async fn raw_connect_chain(addr: SocketAddr, ca_der: &[u8], identity: Option
     let mut config = ClientConfig::new(Arc::new(crypto));
     let mut transport = TransportConfig::default();
     transport.keep_alive_interval(Some(Duration::from_secs(5)));
+    if let Some(w) = stream_window {
+        transport.stream_receive_window(w.into());
+    }
     config.transport_config(Arc::new(transport));
     let mut endpoint = Endpoint::client("0.0.0.0:0".parse().unwrap())?;
     endpoint.set_default_client_config(config);
